@@ -341,6 +341,26 @@ def txn_strategy(safe=False):
     return s
 
 
+def skew_strategy(tier):
+    """SERIALIZABLE scripts shaped for validation against OLD commit-log entries: 2-3 early transactions read most of 2-3 keys
+    at once and write one of them after a short or a long pause (so one of them commits while another stays active for long),
+    and 1-3 short transactions begin later (after the first commits), touch any key (or an unrelated one) and commit at once."""
+    big = tier == "thorough"
+    read = st.tuples(st.sampled_from([0, 1]), st.integers(0, 2), st.sampled_from([0, 0, 1])).map(list)
+    late_write = st.tuples(st.just(2), st.integers(0, 2), st.sampled_from([1, 2, 3, 6, 9, 12, 14, 16])).map(list)
+    extra = st.tuples(st.integers(0, 3), st.integers(0, 3), st.sampled_from([0, 1, 2])).map(list)
+    early = st.tuples(st.sampled_from([0, 0, 1, 2]), st.lists(read, min_size=1, max_size=3), late_write, st.lists(extra, max_size=1)).map(
+        lambda t: {"start": t[0], "steps": t[1] + [t[2]] + t[3], "abort": 0})
+    short_step = st.tuples(st.integers(0, 3), st.integers(0, 3), st.sampled_from([0, 0, 1])).map(list)
+    short = st.fixed_dictionaries({"start": st.integers(2, 15), "steps": st.lists(short_step, min_size=1, max_size=2),
+                                   "abort": st.sampled_from([0, 0, 0, 0, 0, 0, 1])})
+    cfg = st.fixed_dictionaries({"order": st.integers(0, 2), "rl": st.sampled_from([0, 0, 1, 1, 2]), "wl": st.integers(0, 2),
+                                 "mem": st.integers(0, 3), "strat": st.integers(0, 2), "p1": st.integers(0, 4)})
+    return st.tuples(st.sampled_from([0, 0, 0, 1, 2]), st.sampled_from([1, 2, 2, 3]), cfg,
+                     st.lists(early, min_size=2, max_size=3), st.lists(short, min_size=1, max_size=3 if big else 2)).map(
+        lambda t: {"store": t[0], "nkeys": t[1], "fresh": 0, "cfg": t[2], "txns": t[3] + t[4]})
+
+
 def run_txn_case(level, case, safe=False):
     from happysimulator.components.storage.transaction_manager import IsolationLevel, TransactionManager
     cfg = dict(case.get("cfg")) if isinstance(case.get("cfg"), dict) else {}
@@ -587,6 +607,11 @@ OBLIGATIONS = [
                "2-5 transactions (read/write scripts with gaps, commit or abort) on a SERIALIZABLE TransactionManager over KVStore/BTree/LSMTree; "
                "brute force over all orders of the committed transactions: one order must explain every committed read and the final store; "
                "non-trivial = two transactions with intersecting read/write sets overlapping in time and >=1 commit"),
+    Obligation("txn-ser-skew", skew_strategy, txn_execute("ser", "txn-ser-skew"), {"quick": 600, "thorough": 20000},
+               "SERIALIZABLE with 3-5 transactions over 2-4 keys: 2-3 early transactions read most keys at once and write one of them after a "
+               "short or a long pause (one commits while another stays active), 1-3 short transactions begin later, touch any key and commit "
+               "at once (so the validation of a long-lived transaction needs commit-log entries older than a later committer's snapshot); "
+               "same brute-force serial-order oracle; non-trivial = conflicting rw-sets overlapping in time and >=1 commit"),
     Obligation("txn-si", txn_strategy(), txn_execute("si", "txn-si"), {"quick": 450, "thorough": 20000},
                "same scripts at SNAPSHOT_ISOLATION: every transaction's reads of keys it did not write must all match the state after one "
                "prefix of the commit order; same non-trivial rule"),
